@@ -6,7 +6,11 @@
      stride_members it= pat=[..] ext=[..] str=[..]
      map   lay=tstride it= pat=[..] ext=[..] ctor= str=[..] perm=[..]   (layout_transpose<layout_stride>; str = strides of the view)
      sub   it= pat=[..] ext=[..] sl=F,I,P,T,A,M<lo>,C<lo>_<hi> lo=[..] hi=[..]   (submdspan_extents; `keep=[0|1 ..]` = F/I only)
-     mda   lay=left|right|stride it= pat=[..] ext=[..] val= [str=[..] perm=[..]]    (mdarray constructors)
+     mda   lay=left|right|stride it= pat=[..] ext=[..] val= [str=[..] perm=[..]] [ext2=[..] [str2=[..] perm2=[..]]]
+           (mdarray constructors; with ext2: copy / move / assignment / swap between two objects with different mappings)
+     dflt  it= pat=[..] ext=[..]                            (default-constructed mappings; ext = static extent or 0)
+     seq   it= pat=[..] oit= opat=[..] olay=stride|left|right ext=[..] oext=[..] str=[..] [ostr=[..]]
+           (layout_stride::mapping::operator== across index types, both operand orders)
      msz   lay=left|right it= pat=[..] ext=[..]            (size / empty when only the SIZE is representable)
      span  n= se= op=first|last|subspan ct=0|1 off= cnt=
 -/
@@ -277,11 +281,15 @@ def descStride (t : IdxT) (a : MdArr StrideMap) : Except Err String :=
   let rank := a.map.ext.pat.length
   descOf ((List.range rank).mapM (a.map.ext.extent t)) ((List.range rank).mapM a.map.stride) a.ctr (a.readStride t)
 
-/-- the object fields of an `mda` line on the model: `x = mdarray(m1, val)`, `y = mdarray(m2, c2)`; swap(x, y); z(x); w(move(y));
+/-- the containers of the two objects: element `k` is `500 + 3 k` resp. `100 + k` -/
+def ctrA (n : Nat) : List Int := (List.range n).map (fun k => ((500 + 3 * k : Nat) : Int))
+def ctrB (n : Nat) : List Int := (List.range n).map (fun k => ((100 + k : Nat) : Int))
+
+/-- the object fields of an `mda` line on the model: `x = mdarray(m1, c1)`, `y = mdarray(m2, c2)`; swap(x, y); z(x); w(move(y));
     z = w; w = move(u) with u = mdarray(m2, c2); and swap of two objects with an `etl::array` container -/
-def modelObjFields {M : Type} (desc : MdArr M → Except Err String) (m1 m2 : M) (want1 want2 : Nat) (val : Int) : Except Err String := do
-  let c1 : List Int := List.replicate want1 val
-  let c2 : List Int := (List.range want2).map (fun k => ((100 + k : Nat) : Int))
+def modelObjFields {M : Type} (desc : MdArr M → Except Err String) (m1 m2 : M) (want1 want2 : Nat) : Except Err String := do
+  let c1 : List Int := ctrA want1
+  let c2 : List Int := ctrB want2
   let x : MdArr M := { map := m1, ctr := c1 }
   let y : MdArr M := { map := m2, ctr := c2 }
   let (x, y) := MdArr.swap x y
@@ -295,19 +303,18 @@ def modelObjFields {M : Type} (desc : MdArr M → Except Err String) (m1 m2 : M)
   let u : MdArr M := { map := m2, ctr := c2 }
   let w := MdArr.assign w (MdArr.move u)
   let ma ← desc w
-  let ax : MdArr M := { map := m1, ctr := List.replicate ARRN val }
-  let ay : MdArr M := { map := m2, ctr := (List.range ARRN).map (fun k => ((100 + k : Nat) : Int)) }
+  let ax : MdArr M := { map := m1, ctr := ctrA ARRN }
+  let ay : MdArr M := { map := m2, ctr := ctrB ARRN }
   let (ax, ay) := MdArr.swap ax ay
   pure s!" sw={sw} cc={cc} mc={mc} ca={ca} ma={ma} asw={← desc ax}|{← desc ay}"
 
-/-- spec: object A has extents `v1`, strides `s1`, `n1` copies of `val`; object B extents `v2`, strides `s2`, elements 100 + k -/
-def specObjFields (v1 s1 v2 s2 : List Nat) (off1 off2 : List Nat) (want1 want2 : Nat) (val : Int) : String :=
+/-- spec: object A has extents `v1`, strides `s1`, elements 500 + 3 k; object B extents `v2`, strides `s2`, elements 100 + k -/
+def specObjFields (v1 s1 v2 s2 : List Nat) (off1 off2 : List Nat) (want1 want2 : Nat) : String :=
   let d (v st : List Nat) (c : List Int) (offs : List Nat) : String :=
     s!"e={fmtNatList v}/s={fmtNatList st}/r={rep c (offs.map (fun o => match c[o]? with | some x => x | none => -1))}"
-  let cB (n : Nat) : List Int := (List.range n).map (fun k => ((100 + k : Nat) : Int))
-  let A := d v1 s1 (List.replicate want1 val) off1
-  let B := d v2 s2 (cB want2) off2
-  s!" sw={B}|{A} cc={B} mc={A} ca={A} ma={B} asw={d v2 s2 (cB ARRN) off2}|{d v1 s1 (List.replicate ARRN val) off1}"
+  let A := d v1 s1 (ctrA want1) off1
+  let B := d v2 s2 (ctrB want2) off2
+  s!" sw={B}|{A} cc={B} mc={A} ca={A} ma={B} asw={d v2 s2 (ctrB ARRN) off2}|{d v1 s1 (ctrA ARRN) off1}"
 
 /-- slice kinds of a `sub` line: F, I, P / T / A (run-time pairs), M<lo> (one static bound), C<lo>_<hi> (static pair) -/
 def parseSlices (names : List String) (lo hi : List Int) : Option (List Slice) :=
@@ -478,14 +485,14 @@ def step (_ : Unit) (l : Line) : Unit × String :=
             | some vals2 => do
               let e2 ← Ext.ofVals t pat (intsOf vals2)
               let req2 ← reqSpan ly t e2
-              modelObjFields (descContig ly t) e e2 req.toNat req2.toNat val
+              modelObjFields (descContig ly t) e e2 req.toNat req2.toNat
           pure s!"req={req}{f} misc=ok{g}"
         let offOf (v : List Nat) := (Spec.indices v).map (fun i => match ly with | .left => Spec.offLeft v i | .right => Spec.offRight v i)
         let strOf (v : List Nat) := (List.range v.length).map (fun k => match ly with | .left => Spec.strideLeft v k | .right => Spec.strideRight v k)
         let offs := offOf vals
         let g := match l.natList? "ext2" with
           | none => ""
-          | some vals2 => specObjFields vals (strOf vals) vals2 (strOf vals2) offs (offOf vals2) (Spec.prod vals) (Spec.prod vals2) val
+          | some vals2 => specObjFields vals (strOf vals) vals2 (strOf vals2) offs (offOf vals2) (Spec.prod vals) (Spec.prod vals2)
         out (fmtE m) s!"req={Spec.prod vals}{specMdaFields offs (Spec.prod vals) val true rank} misc=ok{g}"
       | "stride" =>
         match l.natList? "str", l.natList? "perm" with
@@ -507,14 +514,14 @@ def step (_ : Unit) (l : Line) : Unit × String :=
                 let e2 ← Ext.ofVals t pat (intsOf v2)
                 let sm2 ← StrideMap.mk' t e2 (intsOf s2)
                 let req2 ← sm2.reqSpan t
-                modelObjFields (descStride t) sm sm2 req.toNat req2.toNat val
+                modelObjFields (descStride t) sm sm2 req.toNat req2.toNat
             pure s!"req={req}{f} misc=ok{g}"
           let offs := (Spec.indices vals).map (fun i => Spec.offStride str i)
           let g := match second with
             | none => ""
             | some (v2, s2, _) =>
               specObjFields vals str v2 s2 offs ((Spec.indices v2).map (fun i => Spec.offStride s2 i)) (Spec.reqSpanStride vals str)
-                (Spec.reqSpanStride v2 s2) val
+                (Spec.reqSpanStride v2 s2)
           out (fmtE m) s!"req={Spec.reqSpanStride vals str}{specMdaFields offs (Spec.reqSpanStride vals str) val false rank} misc=ok{g}"
         | _, _ => bad
       | _ => bad
